@@ -99,6 +99,10 @@ def gen_forest(rng, shape=None, siblings=True):
         cus.append(u)
     units = partials + cus
     rng.shuffle(units) if rng.random() < 0.3 and not partials else None
+    if shape == "empty":
+        # header-only units (no DIE at all) before, between and after ordinary ones
+        for _ in range(rng.randint(1, 3)):
+            units.insert(rng.randint(0, len(units)), Unit(None, rng.choice([2, 3, 4, 5])))
     if partials and rng.random() < 0.5:
         units = cus[:1] + partials + cus[1:]      # partial units in the middle of the section
     if siblings:
@@ -122,7 +126,7 @@ def place_import(rng, root, target_root):
 def add_siblings(rng, units):
     """DW_AT_sibling on some DIEs that have children (pointing at the next sibling)."""
     for u in units:
-        if u.version < 2:
+        if u.root is None:
             continue
         for d in walk(u.root):
             for i, c in enumerate(d.children[:-1]):
@@ -136,6 +140,9 @@ def raw_listing(forest):
     out = []
     for u in forest.units:
         dies = []
+        if u.root is None:
+            out.append((None, u.version, []))     # header-only unit: nothing to enumerate
+            continue
         for d in walk(u.root):
             dies.append((d.offset, d.tag, d.parent.offset if d.parent is not None else -1, d.flag(), [attr_pair(a, f, v) for a, f, v in d.attrs]))
         out.append((u.root.offset, u.version, dies))
@@ -178,7 +185,7 @@ def cooked_preorder(d, route=()):
 
 
 def cooked_units(forest):
-    return [u for u in forest.units if u.root.tag != DW_TAG["partial_unit"]]
+    return [u for u in forest.units if u.root is not None and u.root.tag != DW_TAG["partial_unit"]]
 
 
 # ------------------------------------------------- specification / abstract_origin chains
